@@ -118,7 +118,7 @@ func (c *Ctx) isFreshDecimalDepth(v ssa.Value, depth int) (bool, string) {
 				return false, r.String()
 			}
 			s := r.Fn.String()
-			if r.Fn.Name() == "newDecimalBig" && c.inModule(r.Fn) {
+			if r.Fn.Name() == c.P.alias("newDecimalBig") && c.inModule(r.Fn) {
 				continue
 			}
 			if s == decimalPath+".New" || s == decimalPath+".WithContext" || s == decimalPath+".WithPrecision" {
